@@ -130,6 +130,23 @@ fn make_rep(model: &mut Model, d: &Bits, rng: &mut Rng, many_segments: bool, obs
     Some(Rep { rep, set: d.clone() })
 }
 
+/// Attribute a session without progress to the known sampling/window limitation when the
+/// evidence is unambiguous: every missing command lies more than SEGMENT_BUFFER_MAX (100)
+/// max_cuts above the highest sampled address the responder holds (the responder only looks
+/// at segments up to that max_cut + 100 per session).
+fn beyond_window(model: &Model, sample: &[aranya_runtime::Address], resp_set: &Bits, req_set: &Bits) -> Option<(u64, u64)> {
+    if sample.is_empty() {
+        return None;
+    }
+    let highest_have = sample
+        .iter()
+        .filter_map(|a| model.idx(a.id.as_array()).filter(|&v| resp_set.get(v)).map(|_| a.max_cut.get()))
+        .max()
+        .unwrap_or(0);
+    let min_missing = resp_set.iter().filter(|&v| !req_set.get(v)).map(|v| model.node(v).max_cut).min()?;
+    (min_missing > highest_have + 100).then_some((highest_have, min_missing))
+}
+
 fn sync_case(cs: u64, args: &Args, m16: &mut Monitor, m17: &mut Monitor, m01: &mut Monitor, corpus: &mut Vec<Vec<u8>>) {
     let mut rng = Rng::new(cs);
     let kind = cs % 10;
@@ -185,6 +202,13 @@ fn sync_case(cs: u64, args: &Args, m16: &mut Monitor, m17: &mut Monitor, m01: &m
             }
             let (c0, c1) = caches.split_at_mut(1);
             let ctx = json!({"session": guard, "missing_before": missing_before, "mode": if mode_full { "full" } else { "one-response" }, "buf": buf});
+            if std::env::var("RT_SYNC_DEBUG").is_ok() {
+                let miss: Vec<usize> = b.set.iter().filter(|&v| !a.set.get(v)).collect();
+                eprintln!("[dbg] kind {kind} model {} A {} B {} missing {:?}", model.len(), a.set.count(), b.set.count(), miss);
+                eprintln!("[dbg] A heads {:?}", a.rep.heads().map(|h| h.iter().map(|x| (model.idx(&x.0), x.1)).collect::<Vec<_>>()));
+                eprintln!("[dbg] B heads {:?}", b.rep.heads().map(|h| h.iter().map(|x| (model.idx(&x.0), x.1)).collect::<Vec<_>>()));
+                for &v in &miss { eprintln!("[dbg]   missing {v}: par {:?}", model.node(v).par); }
+            }
             let out = sync_session(&mut a.rep, &mut b.rep, &mut c0[0][1], &mut c1[0][0], &mut model, &b.set, &mut a.set, if mode_full { SessionMode::Full } else { SessionMode::OneResponse }, buf, &mut obs, &ctx);
             sessions += 1;
             corpus_push(corpus, &out.messages);
@@ -222,8 +246,15 @@ fn sync_case(cs: u64, args: &Args, m16: &mut Monitor, m17: &mut Monitor, m01: &m
                 continue;
             }
             if missing_after >= missing_before {
-                let sig = if req_heads > 100 { "sync-session-made-no-progress:requester-holds-more-than-100-heads" } else { "sync-session-made-no-progress-while-commands-were-missing" };
-                obs.fail("C16", sig, json!({"ctx": ctx, "missing_before": missing_before, "missing_after": missing_after, "responses": out.responses, "commands_received": out.commands_received, "sample": out.sample_size, "requester_heads": a.rep.heads().map(|h| h.len()).unwrap_or(0)}));
+                let window = beyond_window(&model, &out.sample, &b.set, &a.set);
+                let sig = if req_heads > 100 {
+                    "sync-session-made-no-progress:requester-holds-more-than-100-heads"
+                } else if window.is_some() {
+                    "sync-session-made-no-progress:missing-commands-above-the-responders-max_cut-window"
+                } else {
+                    "sync-session-made-no-progress-while-commands-were-missing"
+                };
+                obs.fail("C16", sig, json!({"ctx": ctx, "missing_before": missing_before, "missing_after": missing_after, "responses": out.responses, "commands_received": out.commands_received, "sample": out.sample_size, "highest_sampled_address_the_responder_holds_and_lowest_missing_max_cut": window, "requester_heads": a.rep.heads().map(|h| h.len()).unwrap_or(0)}));
                 break;
             }
             // the committed graph of A is what the model says
@@ -268,8 +299,15 @@ fn sync_case(cs: u64, args: &Args, m16: &mut Monitor, m17: &mut Monitor, m01: &m
                 moved = true;
             } else if missing_before > 0 {
                 let rh = ri.rep.heads().map(|h| h.len()).unwrap_or(0);
-                let sig = if rh > 100 { "sync-session-made-no-progress:requester-holds-more-than-100-heads" } else { "sync-session-made-no-progress-while-commands-were-missing" };
-                obs.fail("C16", sig, json!({"ctx": ctx, "missing_before": missing_before, "requester_heads": rh}));
+                let window = beyond_window(&model, &out.sample, &rset, &ri.set);
+                let sig = if rh > 100 {
+                    "sync-session-made-no-progress:requester-holds-more-than-100-heads"
+                } else if window.is_some() {
+                    "sync-session-made-no-progress:missing-commands-above-the-responders-max_cut-window"
+                } else {
+                    "sync-session-made-no-progress-while-commands-were-missing"
+                };
+                obs.fail("C16", sig, json!({"ctx": ctx, "missing_before": missing_before, "requester_heads": rh, "highest_sampled_address_the_responder_holds_and_lowest_missing_max_cut": window}));
                 rounds = 1000;
                 break;
             }
